@@ -572,11 +572,14 @@ class SpectralDensity(DFunction, UnitsManaged):
         """
         import scipy.interpolate as interp
 
-        integr = self.data/self.axis.data
-        uvspl = interp.UnivariateSpline(self.axis.data, integr, s=0)
-        integ = uvspl.integral(0.0, self.axis.max)/numpy.pi
+        # the integration is done in internal units; the result is
+        # returned in the current units of energy
+        with energy_units("int"):
+            integr = self.data/self.axis.data
+            uvspl = interp.UnivariateSpline(self.axis.data, integr, s=0)
+            integ = uvspl.integral(0.0, self.axis.max)/numpy.pi
 
-        return integ
+        return self.convert_energy_2_current_u(integ)
 
 
     def copy(self):
